@@ -238,3 +238,28 @@ class Opt(BaseOpt):
     def __init__(self, lr: float, schedule: Sched, momentum: float = 0.0):
         self.lr, self.schedule, self.momentum = lr, schedule, momentum
         LOG.append((type(self).__name__, dict(lr=lr, schedule=schedule, momentum=momentum), self))
+
+
+@dataclass
+class DataSettings:
+    batch: int = 8
+    shuffle: bool = False
+
+
+class DataGroup:
+    def __init__(self, batch: int = 8, shuffle: bool = False):
+        self.batch, self.shuffle = batch, shuffle
+
+
+class LModel:
+    pass
+
+
+class LModelStruct(LModel):
+    def __init__(self, data_cfg: DataSettings, width: int = 1):
+        self.data_cfg, self.width = data_cfg, width
+
+
+class LModelDict(LModel):
+    def __init__(self, data_cfg: dict, width: int = 1):
+        self.data_cfg, self.width = data_cfg, width
